@@ -627,6 +627,9 @@ func genC16Malformed(t *rapid.T) c16Malformed {
 		hx(big.NewInt(cmt.MaxPartSize)),               // at the cap, not enough data
 		hx(new(big.Int).Lsh(one, 200)),                // huge
 		hx(big.NewInt(6)), hx(big.NewInt(100)),        // more than available
+		hx(new(big.Int).SetUint64(1<<63 - 1)),         // MaxInt64: position + length overflows
+		hx(new(big.Int).SetUint64(1<<63 - 2)), hx(new(big.Int).SetUint64(1<<63 - 3)), hx(new(big.Int).SetUint64(1<<63 - 9)),
+		hx(new(big.Int).SetUint64(1 << 62)), hx(new(big.Int).SetUint64(1<<62 + 1<<61)),
 	}
 	return c16Malformed{
 		Base:  base,
@@ -709,6 +712,8 @@ func lenClass(v *big.Int) string {
 		return "len>2^64"
 	case v.BitLen() == 64:
 		return "len>=2^63"
+	case v.BitLen() >= 62:
+		return "len~MaxInt64"
 	case v.Cmp(big.NewInt(cmt.MaxPartSize)) >= 0:
 		return "len>=cap"
 	default:
@@ -762,4 +767,106 @@ func TestC16BuilderCaps(t *testing.T) {
 	}
 	r.Count("builder cap size=Max", true, "one part of MaxPartSize elements round-trips")
 	_ = reflect.DeepEqual
+}
+
+
+// --- framing bytes appearing literally inside elements: constructions that collide under any framing
+// that omits the delimiter, the per-element length, or the last element's suffix.
+
+type c16Inject struct {
+	Prefix []B
+	A, X, Y B
+	Form   string
+}
+
+func genC16Inject(t *rapid.T) c16Inject {
+	c := c16Inject{Form: rapid.SampledFrom([]string{"sep-only", "delim-only", "merge-full", "len-only", "shifted-suffix"}).Draw(t, "form")}
+	np := rapid.IntRange(0, 2).Draw(t, "nprefix")
+	for i := 0; i < np; i++ {
+		c.Prefix = append(c.Prefix, bx(drawBytes(t, "p", 0, 12)))
+	}
+	nz := func(label string, lo, hi int) B { // no leading zero byte, so that the integer view keeps the bytes
+		b := drawBytes(t, label, lo, hi)
+		if len(b) > 0 && b[0] == 0 {
+			b[0] = 0x7f
+		}
+		return bx(b)
+	}
+	c.A, c.X, c.Y = nz("a", 1, 20), nz("x", 0, 20), nz("y", 1, 20)
+	return c
+}
+
+func le64(n int) []byte {
+	b := make([]byte, 8)
+	for i := 0; i < 8; i++ {
+		b[i] = byte(uint64(n) >> (8 * uint(i)))
+	}
+	return b
+}
+
+func cat(parts ...[]byte) []byte {
+	var out []byte
+	for _, p := range parts {
+		out = append(out, p...)
+	}
+	return out
+}
+
+func runC16Inject(c c16Inject) ev.Outcome {
+	out := ev.Outcome{Label: fmt.Sprintf("framing-injection form=%s prefix=%d", c.Form, len(c.Prefix)), Nontrivial: true}
+	a, x, y := c.A.Bytes(), c.X.Bytes(), c.Y.Bytes()
+	var t1, t2 [][]byte
+	for _, p := range c.Prefix {
+		t1 = append(t1, p.Bytes())
+		t2 = append(t2, p.Bytes())
+	}
+	d := []byte{'$'}
+	switch c.Form {
+	case "sep-only": // collide when the last element carries no length suffix
+		t1 = append(t1, a, cat(x, d, le64(len(a)+9+len(x)), y))
+		t2 = append(t2, cat(a, d, le64(len(a)), x), y)
+	case "delim-only": // collide when only a delimiter separates elements
+		t1 = append(t1, a, y)
+		t2 = append(t2, cat(a, d, y))
+	case "merge-full": // the complete literal framing of a inside one element
+		t1 = append(t1, a, y)
+		t2 = append(t2, cat(a, d, le64(len(a)), y))
+	case "len-only": // collide when elements are only length-suffixed without delimiter
+		t1 = append(t1, a, y)
+		t2 = append(t2, cat(a, le64(len(a)), y))
+	case "shifted-suffix": // the suffix of a moved into the next element
+		t1 = append(t1, cat(a, d), cat(le64(len(a)), y))
+		t2 = append(t2, a, cat(d, le64(len(a)), y))
+	}
+	if tuplesEqual(t1, t2) {
+		out.Skip = true
+		return out
+	}
+	if bytes.Equal(common.SHA512_256(t1...), common.SHA512_256(t2...)) {
+		out.Err, out.Sig = fmt.Errorf("SHA512_256 collision between %x and %x", t1, t2), "framing-collision"
+		return out
+	}
+	i1, i2 := toInts(t1), toInts(t2)
+	if !intsEqual(i1, i2) {
+		if common.SHA512_256i(i1...).Cmp(common.SHA512_256i(i2...)) == 0 {
+			out.Err, out.Sig = fmt.Errorf("SHA512_256i collision between %x and %x", t1, t2), "framing-collision"
+			return out
+		}
+		if common.SHA512_256i_TAGGED(a, i1...).Cmp(common.SHA512_256i_TAGGED(a, i2...)) == 0 {
+			out.Err, out.Sig = fmt.Errorf("SHA512_256i_TAGGED collision between %x and %x", t1, t2), "framing-collision"
+			return out
+		}
+		// the same pair as a commitment: one commitment, two openings
+		c1 := cmt.NewHashCommitmentWithRandomness(i1[0], i1[1:]...)
+		alt := cmt.HashCommitDecommit{C: c1.C, D: i2}
+		if alt.Verify() {
+			out.Err, out.Sig = fmt.Errorf("commitment opens to two different decommitments: %x and %x", t1, t2), "framing-collision"
+		}
+	}
+	return out
+}
+
+func TestC16HashFramingInjection(t *testing.T) {
+	r := ev.New(t, "C16")
+	ev.Drive(t, r, genC16Inject, runC16Inject)
 }
